@@ -3,6 +3,8 @@
 mod astnorm;
 mod checks;
 mod drive;
+mod expr;
+mod sem;
 mod runner;
 mod tape;
 mod textgen;
